@@ -252,6 +252,9 @@ struct Ctx<'a> {
     kinds: BTreeMap<String, Vec<String>>,
     /// per (stream, signature): the SMALLEST failing case seen so far (size, what, case) and the number of failures
     best: Best,
+    /// the generator's abstract merged schema (un-split model + built-ins) of the group being evaluated, with its wire
+    /// text; None = the reference validator gets the really resolved schema (hand-written cases)
+    abstract_ts: Option<(Sexp, String)>,
     /// message class (imports::message_template) → diagnostic kind, learned from every diagnostic of the library leg
     templates: BTreeMap<String, String>,
     /// the built nitrogql-cli (`--cli`), the scratch directory, and how many CLI runs this harness run may still make
@@ -267,7 +270,11 @@ struct Ctx<'a> {
 
 type Best = BTreeMap<(String, String), (usize, String, J, u64)>;
 
-fn record(best: &mut Best, stream: &str, signature: &str, what: &str, case: J, size: usize) {
+fn record(best: &mut Best, abs: &Option<(Sexp, String)>, stream: &str, signature: &str, what: &str, mut case: J, size: usize) {
+    if let (Some((_, line)), Some(obj)) = (abs, case.as_object_mut()) {
+        // the reference validator judged over this schema (the generator's abstract one), not over the resolved text
+        obj.insert("abstract_schema".into(), J::String(line.clone()));
+    }
     let e = best.entry((stream.to_string(), signature.to_string())).or_insert((usize::MAX, String::new(), J::Null, 0));
     e.3 += 1;
     if size < e.0 {
@@ -279,24 +286,47 @@ fn record(best: &mut Best, stream: &str, signature: &str, what: &str, case: J, s
 
 /// the answers of `(all ts d)` for many documents over ONE schema, asked as `(all* ts d …)` in chunks: the driver parses,
 /// decodes and judges the schema once per chunk instead of once per document
-fn all_many(drv: &mut Driver, ts: &Sexp, docs: Vec<Sexp>) -> Vec<Sexp> {
-    let mut reqs = vec![];
-    let mut sizes = vec![];
-    for ch in docs.chunks(100) {
-        let mut v = vec![ts.clone()];
-        v.extend(ch.iter().cloned());
-        reqs.push(Sexp::call("all*", v));
-        sizes.push(ch.len());
-    }
-    let mut out = vec![];
-    for (a, n) in drv.batch(&reqs).into_iter().zip(sizes) {
-        if a.head() == Some("all*") && a.args().len() == n {
-            out.extend(a.args().iter().cloned());
-        } else {
-            out.extend(std::iter::repeat(a).take(n));
+fn all_many(drv: &mut Driver, ts: &Sexp, abs: Option<&Sexp>, docs: Vec<Sexp>) -> Vec<Sexp> {
+    let many = |drv: &mut Driver, head: &str, ts: &Sexp, docs: &[Sexp]| -> Vec<Sexp> {
+        let mut reqs = vec![];
+        let mut sizes = vec![];
+        for ch in docs.chunks(100) {
+            let mut v = vec![ts.clone()];
+            v.extend(ch.iter().cloned());
+            reqs.push(Sexp::call(head, v));
+            sizes.push(ch.len());
+        }
+        let mut out = vec![];
+        for (a, n) in drv.batch(&reqs).into_iter().zip(sizes) {
+            if a.head() == Some(head) && a.args().len() == n {
+                out.extend(a.args().iter().cloned());
+            } else {
+                out.extend(std::iter::repeat(a).take(n));
+            }
+        }
+        out
+    };
+    match abs {
+        None => many(drv, "all*", ts, &docs),
+        // K over the really resolved schema, the reference validator over the generator's ABSTRACT schema: a defect of the
+        // schema pipeline (parser, merge, extension resolver) must not reach the oracle
+        Some(abs) => {
+            let errs = many(drv, "errs*", ts, &docs);
+            let judged = many(drv, "judge*", abs, &docs);
+            errs.into_iter()
+                .zip(judged)
+                .map(|(e, j)| {
+                    if e.head() == Some("errs") && j.head() == Some("judge") && j.args().len() == 3 {
+                        Sexp::call("all", vec![e, j.args()[0].clone(), j.args()[1].clone(), j.args()[2].clone()])
+                    } else if e.head() != Some("errs") {
+                        e
+                    } else {
+                        j
+                    }
+                })
+                .collect()
         }
     }
-    out
 }
 
 fn triple_of(e: &Sexp) -> Triple {
@@ -329,6 +359,9 @@ fn classify_c04(sm: Option<&SchemaModel>, doc: &Doc, d: &Triple) -> String {
     let sites = mutate::collect_sites(&sch, doc);
     if d.0 == "SubscriptionMustHaveExactlyOneRootField" {
         return "subscription-root".into();
+    }
+    if d.0 == "FragmentConditionNeverMatches" {
+        return "spread-applicability".into();
     }
     if d.0 == "DuplicateOperationName" || d.0 == "DuplicateFragmentName" || d.0 == "UnNamedOperationMustBeSingle" {
         return "definition-name".into();
@@ -375,7 +408,7 @@ fn classify_c04(sm: Option<&SchemaModel>, doc: &Doc, d: &Triple) -> String {
 impl<'a> Ctx<'a> {
     /// record a failure; of all failures with one signature the smallest input is reported (`flush`)
     fn fail(&mut self, stream: &str, signature: &str, what: &str, case: J, size: usize) {
-        record(&mut self.best, stream, signature, what, case, size)
+        record(&mut self.best, &self.abstract_ts, stream, signature, what, case, size)
     }
     fn flush(&mut self) {
         for ((stream, sig), (_, what, case, n)) in std::mem::take(&mut self.best) {
@@ -443,7 +476,7 @@ impl<'a> Ctx<'a> {
                 idx.push((pi, ri, has_all, has_spec));
             }
         }
-        let ans = all_many(self.drv, &ts, reqs);
+        let ans = all_many(self.drv, &ts, self.abstract_ts.as_ref().map(|a| &a.0), reqs);
         let mut k = 0;
         self.cli_group = 0;
         // per project: number of roots judged spec-valid (C04), roots whose merge violates the labelled rule (C03)
@@ -706,7 +739,7 @@ impl<'a> Ctx<'a> {
                 }
             }
         }
-        let ans = all_many(self.drv, &ts, reqs);
+        let ans = all_many(self.drv, &ts, self.abstract_ts.as_ref().map(|a| &a.0), reqs);
         for (a, i) in ans.iter().zip(idx) {
             let case = &cases[i];
             let RealOut::Checked { doc, diags, raw } = &outs[i] else { continue };
@@ -719,7 +752,7 @@ impl<'a> Ctx<'a> {
         let cj = || case.to_json(&self.prop);
         let size = case.text.len();
         if ans.head() != Some("all") || ans.args().len() != 4 {
-            record(&mut self.best, "K", "driver-answer", &format!("unexpected driver answer {}", ans.to_line().chars().take(200).collect::<String>()), case.to_json(&self.prop), size);
+            record(&mut self.best, &self.abstract_ts, "K", "driver-answer", &format!("unexpected driver answer {}", ans.to_line().chars().take(200).collect::<String>()), case.to_json(&self.prop), size);
             return;
         }
         let a = ans.args();
@@ -746,7 +779,7 @@ impl<'a> Ctx<'a> {
             let only_real: Vec<&Triple> = realv.iter().filter(|t| !model.contains(t)).collect();
             let only_model: Vec<&Triple> = model.iter().filter(|t| !realv.contains(t)).collect();
             let sig = only_real.first().or(only_model.first()).map(|t| t.0.clone()).unwrap_or_else(|| "multiplicity".into());
-            record(&mut self.best, "K", &format!("check:{sig}"), &format!("model ≠ code on ({}) only-code {:?} only-model {:?}", case.origin, only_real, only_model), cj(), size);
+            record(&mut self.best, &self.abstract_ts, "K", &format!("check:{sig}"), &format!("model ≠ code on ({}) only-code {:?} only-model {:?}", case.origin, only_real, only_model), cj(), size);
         }
         let rules = strs(&a[1]);
         let spec_ok = a[2].args().first().and_then(|x| x.as_atom()) == Some("true");
@@ -783,7 +816,7 @@ impl<'a> Ctx<'a> {
             if let Some(d) = real.first() {
                 let cls = classify_c04(sm, doc, d);
                 let msg = raw.first().map(|r| r.message.clone()).unwrap_or_default();
-                record(&mut self.best, "O", &format!("{}:{}", d.0, cls), &format!("false alarm on a spec-valid document: {} at {}:{} ({msg}) — {} diagnostics in all", d.0, d.1, d.2, real.len()), cj(), size);
+                record(&mut self.best, &self.abstract_ts, "O", &format!("{}:{}", d.0, cls), &format!("false alarm on a spec-valid document: {} at {}:{} ({msg}) — {} diagnostics in all", d.0, d.1, d.2, real.len()), cj(), size);
             }
         }
         if self.prop == "C03" && !case.labels.is_empty() {
@@ -802,10 +835,11 @@ impl<'a> Ctx<'a> {
                 self.rep.count(&format!("mutation:{}", l.mutation));
                 self.rep.count(&format!("class:{}", l.class.split('/').next().unwrap_or("")));
                 if real.is_empty() {
-                    record(&mut self.best, "O", &format!("{}:{}", l.rule, l.class), &format!("accepted with no diagnostic although rule {} is violated ({} at {})", l.rule, l.mutation, l.class), cj(), size);
+                    record(&mut self.best, &self.abstract_ts, "O", &format!("{}:{}", l.rule, l.class), &format!("accepted with no diagnostic although rule {} is violated ({} at {})", l.rule, l.mutation, l.class), cj(), size);
                 } else if !has_kind(l) {
                     record(
                         &mut self.best,
+                        &self.abstract_ts,
                         "O",
                         &format!("{}:{}", l.rule, l.class),
                         &format!("rule {} is violated ({} at {}) but no diagnostic of its kinds {:?}; got {:?}", l.rule, l.mutation, l.class, self.kinds.get(&l.rule), real.iter().map(|d| &d.0).collect::<BTreeSet<_>>()),
@@ -817,12 +851,12 @@ impl<'a> Ctx<'a> {
                 self.rep.count("mutation:double-fault");
                 if real.is_empty() {
                     let sig = case.labels.iter().map(|l| format!("{}:{}", l.rule, l.class)).collect::<Vec<_>>().join("&");
-                    record(&mut self.best, "O", &sig, &format!("double fault accepted with no diagnostic ({:?})", case.labels), cj(), size);
+                    record(&mut self.best, &self.abstract_ts, "O", &sig, &format!("double fault accepted with no diagnostic ({:?})", case.labels), cj(), size);
                 } else {
                     let hit = case.labels.iter().filter(|l| has_kind(l)).count();
                     if hit == 0 {
                         let sig = case.labels.iter().map(|l| format!("{}:{}", l.rule, l.class)).collect::<Vec<_>>().join("&");
-                        record(&mut self.best, "O", &sig, &format!("double fault: no diagnostic of a kind belonging to either rule ({:?}); got {:?}", case.labels, real), cj(), size);
+                        record(&mut self.best, &self.abstract_ts, "O", &sig, &format!("double fault: no diagnostic of a kind belonging to either rule ({:?}); got {:?}", case.labels, real), cj(), size);
                     } else if hit < case.labels.len() {
                         self.rep.count("double-fault:one-rule-masked-by-the-other");
                     }
@@ -949,6 +983,28 @@ fn diamond_corpus() -> Vec<Case> {
     ]
 }
 
+/// schemas WRITTEN with extensions (what the real pipeline reads) beside the same schema written plainly (what the
+/// reference validator judges over): `Note` joins `Node` and `SearchResult` only through extensions, in a second file
+/// that comes first
+fn extension_corpus() -> Vec<(Vec<String>, String, Vec<Case>)> {
+    let ext = vec![
+        "extend type Note implements Node\nextend union SearchResult = Note\nextend type Query { search: SearchResult }\n".to_string(),
+        "type Query { note: Note node: Node }\ninterface Node { id: ID }\ntype Note { id: ID text: String }\ntype Tag implements Node { id: ID label: String }\nunion SearchResult = Tag\n".to_string(),
+    ];
+    let plain = "type Query { note: Note node: Node search: SearchResult }\ninterface Node { id: ID }\ntype Note implements Node { id: ID text: String }\ntype Tag implements Node { id: ID label: String }\nunion SearchResult = Tag | Note\n".to_string();
+    let c = |name: &str, doc: &str, labels: Vec<Label>| Case { sdl: ext.clone(), text: doc.to_string(), labels, origin: format!("corpus:{name}"), features: vec![name.to_string()], raw_schema: false };
+    vec![(
+        ext.clone(),
+        plain,
+        vec![
+            c("interface-joined-by-extension", "query Q { note { ... on Node { id } } node { ... on Note { text } ...N } } fragment N on Note { id }", vec![]),
+            c("union-member-added-by-extension", "query Q { search { ... on Note { text } ... on Node { id } } node { ... on SearchResult { __typename } } }", vec![]),
+            c("unknown-field-under-extension-joined-interface", "query Q { note { ... on Node { nonexistent } } }", lbl("5.3.1", "op", "rename-field")),
+            c("impossible-spread-over-extended-schema", "query Q { note { ... on Tag { label } } }", lbl("5.5.2.3", "op/inline/Object-in-Object", "impossible-spread")),
+        ],
+    )]
+}
+
 /// corpus on schemas the schema checker would reject (K only): TypeSystemError / NoRootType / UnknownType branches
 fn raw_corpus() -> Vec<Case> {
     let c = |name: &str, sdl: &str, doc: &str| Case { sdl: vec![sdl.to_string()], text: doc.to_string(), labels: vec![], origin: format!("corpus-raw:{name}"), features: vec![], raw_schema: true };
@@ -985,7 +1041,7 @@ pub fn run(prop: &str) {
             }
         }
     }
-    let mut ctx = Ctx { prop: prop.to_string(), rep: &mut rep, drv: &mut drv, kinds, best: BTreeMap::new(), templates: BTreeMap::new(), cli: args.extra.get("cli").cloned().unwrap_or_default(), scratch: args.scratch.clone(), cli_budget: 0, cli_seen: 0, cli_group: 0, replaying: args.replay.is_some() };
+    let mut ctx = Ctx { prop: prop.to_string(), rep: &mut rep, drv: &mut drv, kinds, best: BTreeMap::new(), abstract_ts: None, templates: BTreeMap::new(), cli: args.extra.get("cli").cloned().unwrap_or_default(), scratch: args.scratch.clone(), cli_budget: 0, cli_seen: 0, cli_group: 0, replaying: args.replay.is_some() };
     // the CLI leg of the import stream: a modest number of process spawns
     if !args.scratch.is_empty() && std::path::Path::new(&ctx.cli).is_file() {
         ctx.cli_budget = if prop == "C03" { args.budget(100, 1000) } else { args.budget(50, 500) };
@@ -999,6 +1055,11 @@ pub fn run(prop: &str) {
 
     if let Some(path) = &args.replay {
         let v: J = serde_json::from_str(&std::fs::read_to_string(path).expect("replay file")).expect("replay json");
+        if let Some(line) = v["case"]["abstract_schema"].as_str() {
+            if let Some(sx) = Sexp::parse(line) {
+                ctx.abstract_ts = Some((sx, line.to_string()));
+            }
+        }
         if v["case"]["files"].is_array() {
             if let Some(p) = imports::Project::from_json(&v["case"]) {
                 let sdl = p.sdl.clone();
@@ -1022,6 +1083,15 @@ pub fn run(prop: &str) {
     for ((sdl, _), cases) in by_schema {
         ctx.group(&sdl, cases);
     }
+    for (sdl, plain, cases) in extension_corpus() {
+        // the abstract schema of a hand-written case: its PLAIN spelling through the parser (no extension to resolve)
+        if let Ok((abs, _)) = run_real(&[plain], &[], false) {
+            let line = abs.to_line();
+            ctx.abstract_ts = Some((abs, line));
+            ctx.group(&sdl, cases);
+            ctx.abstract_ts = None;
+        }
+    }
     if prop == "C04" {
         let s1 = corpus()[0].sdl[0].clone();
         ctx.group_projects(&[s1.clone()], imports::corpus(&s1));
@@ -1037,6 +1107,14 @@ pub fn run(prop: &str) {
     let n_schemas = args.budget(60, 600) * if search { 2 } else { 1 };
     let docs_per_schema = 6;
     let mut sampled = 0;
+    // the built-in definitions as the real pipeline adds them to every schema (taken once from a fixed one-line schema):
+    // the abstract schema handed to the reference validator = the generator's un-split model + these
+    let builtin_items: Vec<TsItem> = with_schema(&["type Query { zz: Int }".to_string()], |resolved, _| from_real_tsdoc(resolved).items)
+        .ok()
+        .unwrap_or_default()
+        .into_iter()
+        .filter(|i| !matches!(i, TsItem::TypeDef(t) if t.name == "Query"))
+        .collect();
     // `--search 1` is the second run `./check` makes within the QUICK tier when P/K is broken and the first run found
     // no failing input: it must not take the time of a thorough run (measured 7 min), so it is cut by the clock.
     let started = std::time::Instant::now();
@@ -1056,7 +1134,46 @@ pub fn run(prop: &str) {
                 ctx.rep.count(&format!("feature:{f}"));
             }
         }
-        let sdl = vec![schema.sdl()];
+        let mut sdl = vec![schema.sdl()];
+        ctx.abstract_ts = None;
+        if si % 2 == 1 && !builtin_items.is_empty() {
+            // every other schema is WRITTEN with extensions (`extend type T implements I`, fields / members / values /
+            // directives moved into `extend …`, possibly shuffled so that an extension precedes its definition), half of
+            // them over two files; the real pipeline gets that text, the reference validator the un-split model
+            let split = split_into_extensions(&mut rng, &schema);
+            ctx.rep.count("feature:schema:written-with-extensions");
+            if split.items.iter().any(|i| matches!(i, TsItem::TypeExt(t) if !t.implements.is_empty())) {
+                ctx.rep.count("feature:schema:extend-type-implements");
+            }
+            if rng.coin() && split.items.len() >= 2 {
+                let (mut a, mut b) = (vec![], vec![]);
+                let by_kind = rng.coin(); // extensions in a file of their own (which may come first), or a random cut
+                for it in split.items.iter().cloned() {
+                    let second = if by_kind { matches!(it, TsItem::TypeExt(_) | TsItem::SchemaExt(_)) } else { rng.coin() };
+                    if second {
+                        b.push(it)
+                    } else {
+                        a.push(it)
+                    }
+                }
+                if a.is_empty() {
+                    a.push(b.pop().unwrap());
+                }
+                if b.is_empty() {
+                    b.push(a.pop().unwrap());
+                }
+                let (ta, tb) = (tsdoc_text(&TsDoc { items: a }), tsdoc_text(&TsDoc { items: b }));
+                sdl = if rng.coin() { vec![ta, tb] } else { vec![tb, ta] };
+                ctx.rep.count("feature:schema:two-files");
+            } else {
+                sdl = vec![tsdoc_text(&split)];
+            }
+            let mut items = schema.doc.items.clone();
+            items.extend(builtin_items.iter().cloned());
+            let abs = TsDoc { items }.to_sexp();
+            let line = abs.to_line();
+            ctx.abstract_ts = Some((abs, line));
+        }
         let type_names: Vec<String> = schema.types().map(|t| t.name.clone()).collect();
         let sch = Sch { m: &schema };
         let mut cases: Vec<Case> = vec![];
@@ -1262,6 +1379,7 @@ pub fn run(prop: &str) {
         }
         ctx.group(&sdl, cases);
         ctx.group_projects(&sdl, projects);
+        ctx.abstract_ts = None;
     }
     ctx.flush();
     rep.write(&args);
